@@ -237,4 +237,32 @@ pub mod facade {
   pub fn context_live_actors(ctx: &crate::Context) -> usize {
     ctx.verif_live_actors()
   }
+
+  // ------------------------------------------------------------------
+  // EgressBuffer (session write queue)
+  // ------------------------------------------------------------------
+  pub struct EgressBufferX(crate::sessionx::egress_buffer::EgressBuffer);
+  impl EgressBufferX {
+    pub fn new() -> Self {
+      Self(crate::sessionx::egress_buffer::EgressBuffer::new())
+    }
+    pub fn push(&mut self, data: Bytes, msg_count: usize) {
+      self.0.push(data, msg_count)
+    }
+    pub fn push_priority(&mut self, data: Bytes) {
+      self.0.push_priority(data)
+    }
+    pub fn current_slice(&self) -> Option<Vec<u8>> {
+      self.0.current_slice().map(|s| s.to_vec())
+    }
+    pub fn advance(&mut self, n: usize) -> usize {
+      self.0.advance(n)
+    }
+    pub fn pending_messages(&self) -> usize {
+      self.0.pending_messages()
+    }
+    pub fn is_empty(&self) -> bool {
+      self.0.current_slice().is_none()
+    }
+  }
 }
